@@ -112,7 +112,7 @@ def _obs(vec):
 
 
 def run_part(rep, tier):
-    out, st = common.run_tlc('SaveArgs', workers=4, timeout=600)
+    out, st = common.run_tlc('SaveArgs', workers=4, timeout=600, coverage=True)
     rep.add_design('SaveArgs', 'SaveArgs.cfg', out, st, 'save() argument classes per kind and command line invocation classes; invariant RefusedIffMalformed')
     vecs = common.parse_vectors(out)
     rep.notes['save_and_cli_vectors_exported_by_tlc'] = len(vecs)
